@@ -14,3 +14,12 @@ func simBeforeLock(l *sync.RWMutex, write bool) {
 		f(l, write)
 	}
 }
+
+// SimAfterLock is the companion of SimBeforeLock: it is called right after the mutex has been acquired.
+var SimAfterLock func(l *sync.RWMutex)
+
+func simAfterLock(l *sync.RWMutex) {
+	if f := SimAfterLock; f != nil {
+		f(l)
+	}
+}
